@@ -16,6 +16,13 @@
 //!                hinter at 13.5 and 1000 ppem and unhinted.
 //!  * `cffmisc`   (format): k operands then every operator for k = stack limit −2..=+2; subr call chains of
 //!                depth 8..=12 (local, global, alternating); `endchar` with 4/5 seac-style arguments.
+//!  * `cff2blend` CFF2 variation stores whose region count sweeps {0,1,15,16,17,18,32,64} across the 16 precomputed
+//!                blend scalars, with `blend` of 1 and 2 values, vsindex switching between a 1-region and the large
+//!                sub-table, blended BlueValues in the Private DICT, deltas per value = regions −1/=/+1; drawn
+//!                unhinted and hinted at the default location and at wght +0.5.
+//!  * `cffdict`   (format): Private DICT BlueValues / OtherBlues / FamilyBlues / FamilyOtherBlues / StemSnapH / StemSnapV
+//!                with operand counts around their capacities (14, 10, 14, 10, 12, 12) and the operand stack, and
+//!                real numbers with digit strings around the 32-byte parse buffer.
 //!  * `tt`        (group ∈ TT_GROUPS): value-stack depth, storage index, FDEF/IDEF counts, call depth and
 //!                LOOPCALL counts, twilight point index, SLOOP counts, jump targets, truncated pushes, cvt index
 //!                — each at capacity −1 / = / +1 (and 0 / negative / huge), in fpgm, prep and glyph programs.
@@ -33,7 +40,7 @@ use font_types::GlyphId16;
 use read_fonts::tables::glyf::{Anchor, CurvePoint, Transform};
 use read_fonts::FontRef;
 use serde_json::{json, Value};
-use skrifa::instance::{LocationRef, Size};
+use skrifa::instance::{LocationRef, NormalizedCoord, Size};
 use skrifa::outline::{DrawSettings, Engine, HintingInstance, HintingOptions, Target};
 use skrifa::raw::types::GlyphId;
 use skrifa::MetadataProvider;
@@ -44,6 +51,8 @@ pub const ST_CFF: usize = 27;
 
 pub enum Kind {
     Cff,
+    /// CFF2 at the default location and at wght = +0.5
+    CffVar,
     Tt,
     Glyf,
 }
@@ -327,6 +336,202 @@ fn items_cffmisc(spec: &Value) -> Option<(Kind, Vec<Item>)> {
                     });
                 }
             }
+        }
+    }
+    Some((Kind::Cff, out))
+}
+
+// ---------------------------------------------------------------------------------------------
+// (2b) CFF2 blend: region counts across the 16-entry precomputed scalar cache
+// ---------------------------------------------------------------------------------------------
+
+/// Region counts of the large ItemVariationData (MAX_PRECOMPUTED_SCALARS = 16 in read-fonts' BlendState)
+pub const BLEND_REGION_COUNTS: [usize; 8] = [0, 1, 15, 16, 17, 18, 32, 64];
+pub const BLEND_CHARSTRINGS: [&str; 4] = ["blend 1 value", "blend 2 values", "vsindex small then blend", "blend large, vsindex small, blend again"];
+pub const BLEND_PRIVATE: [&str; 3] = ["no blend in Private DICT", "BlueValues blended against the large store", "Private vsindex 1 + BlueValues blended against the small store"];
+
+/// VariationStore: ivd0 = N regions (large), ivd1 = 1 region (small), ivd2 = N regions.
+fn items_cff2blend(_spec: &Value) -> Option<(Kind, Vec<Item>)> {
+    let parts = cff2prog::Parts::new();
+    let mut out = vec![];
+    let nums = |vs: &[i32]| vs.iter().flat_map(|v| num(*v)).collect::<Vec<u8>>();
+    let outline = {
+        let mut t = nums(&[100]);
+        t.push(21); // rmoveto (x already on the stack)
+        t.extend(nums(&[300, 0, -150, 400]));
+        t.push(5);
+        t
+    };
+    for n in BLEND_REGION_COUNTS {
+        for (ci, cname) in BLEND_CHARSTRINGS.iter().enumerate() {
+            for (pi, pname) in BLEND_PRIVATE.iter().enumerate() {
+                for slack in [0i32, -1, 1] {
+                    // number of deltas actually supplied per blended value
+                    let k = (n as i32 + slack).max(0) as usize;
+                    let blend = |values: usize, k: usize| {
+                        let mut v = nums(&vec![100; values]);
+                        v.extend(nums(&vec![7; values * k]));
+                        v.extend(num(values as i32));
+                        v.push(16);
+                        v
+                    };
+                    let mut cs = vec![];
+                    match ci {
+                        0 => cs.extend(blend(1, k)),
+                        1 => {
+                            cs.extend(blend(2, k));
+                            cs.push(21); // rmoveto with the two blended values
+                            cs.extend(nums(&[100]));
+                        }
+                        2 => {
+                            cs.extend(num(1));
+                            cs.push(15); // vsindex -> small store
+                            cs.extend(blend(1, (1 + slack).max(0) as usize));
+                        }
+                        _ => {
+                            cs.extend(blend(1, k));
+                            cs.extend(num(1));
+                            cs.push(15);
+                            cs.extend(blend(1, 1));
+                            cs.push(21);
+                            cs.extend(nums(&[100]));
+                        }
+                    }
+                    cs.extend(outline.clone());
+                    let mut private = vec![];
+                    match pi {
+                        1 => {
+                            private.extend(nums(&[-20, 20]));
+                            private.extend(nums(&vec![3; 2 * k]));
+                            private.extend(num(2));
+                            private.push(23); // blend
+                            private.push(6); // BlueValues
+                        }
+                        2 => {
+                            private.extend(num(1));
+                            private.push(22); // vsindex
+                            private.extend(nums(&[-20, 20]));
+                            private.extend(nums(&vec![3; 2 * (1 + slack).max(0) as usize]));
+                            private.extend(num(2));
+                            private.push(23);
+                            private.push(6);
+                        }
+                        _ => {}
+                    }
+                    let table = cff2prog::cff2_table_full(&cs, &[], &[], &private, cff2prog::var_store_with(&[n, 1, n]));
+                    out.push(Item {
+                        desc: format!("{n} regions; {cname}; {pname}; deltas per value = regions{slack:+}; charstring {}", vcore::hex(&cs)),
+                        font: parts.build_with_table(table),
+                    });
+                }
+            }
+        }
+    }
+    Some((Kind::CffVar, out))
+}
+
+// ---------------------------------------------------------------------------------------------
+// (2c) Private DICT arrays and numbers across their fixed capacities
+// ---------------------------------------------------------------------------------------------
+
+/// (name, operator bytes, capacity in operands)
+pub const DICT_ARRAYS: [(&str, &[u8], usize); 6] = [
+    ("BlueValues", &[6], 14),
+    ("OtherBlues", &[7], 10),
+    ("FamilyBlues", &[8], 14),
+    ("FamilyOtherBlues", &[9], 10),
+    ("StemSnapH", &[12, 12], 12),
+    ("StemSnapV", &[12, 13], 12),
+];
+
+fn items_cffdict(spec: &Value) -> Option<(Kind, Vec<Item>)> {
+    let cff2 = spec["format"].as_str()? == "cff2";
+    let p1 = cffprog::Parts::new();
+    let p2 = cff2prog::Parts::new();
+    let mut cs = vec![];
+    for v in [100, 100] {
+        cs.extend(num(v));
+    }
+    cs.push(21);
+    for v in [300, 0, -150, 400] {
+        cs.extend(num(v));
+    }
+    cs.push(5);
+    if !cff2 {
+        cs.push(14);
+    }
+    let build = |private: &[u8]| {
+        if cff2 {
+            p2.build_with_table(cff2prog::cff2_table_full(&cs, &[], &[], private, cff2prog::var_store_with(&[1])))
+        } else {
+            p1.build_with_table(cffprog::cff_table_full(&cs, &[], &[], private))
+        }
+    };
+    let mut out = vec![];
+    // delta-encoded arrays of c operands, c around the capacity of each array (and around the operand stack)
+    for (name, op, cap) in DICT_ARRAYS {
+        let mut counts = vec![0, 1, 2, cap - 2, cap - 1, cap, cap + 1, cap + 2, 40, 47, 48, 49];
+        counts.sort();
+        counts.dedup();
+        for c in counts {
+            let mut p = vec![];
+            for i in 0..c {
+                p.extend(num(if i == 0 { -20 } else { 10 }));
+            }
+            p.extend_from_slice(op);
+            out.push(Item {
+                desc: format!("Private DICT {name} with {c} operands (capacity {cap})"),
+                font: build(&p),
+            });
+        }
+    }
+    // all arrays at capacity + 1 together (blue zones: 7 + 5 = 12)
+    {
+        let mut p = vec![];
+        for (_, op, cap) in DICT_ARRAYS {
+            for i in 0..cap + 1 {
+                p.extend(num(if i == 0 { -20 } else { 10 }));
+            }
+            p.extend_from_slice(op);
+        }
+        out.push(Item {
+            desc: "every Private DICT array one operand over its capacity".into(),
+            font: build(&p),
+        });
+    }
+    // real numbers: digit strings around the 32-byte parse buffer, as BlueScale (12 9)
+    for digits in [1usize, 29, 30, 31, 32, 33, 34, 64, 200] {
+        for form in 0..3 {
+            // nibbles: form 0 "0.ddd…", form 1 "ddd…E-5", form 2 "-ddd….5"
+            let mut nib: Vec<u8> = vec![];
+            match form {
+                0 => {
+                    nib.extend([0, 0xa]);
+                    nib.extend(vec![3; digits]);
+                }
+                1 => {
+                    nib.extend(vec![7; digits]);
+                    nib.extend([0xc, 5]);
+                }
+                _ => {
+                    nib.push(0xe);
+                    nib.extend(vec![9; digits]);
+                    nib.extend([0xa, 5]);
+                }
+            }
+            nib.push(0xf);
+            if nib.len() % 2 == 1 {
+                nib.push(0xf);
+            }
+            let mut p = vec![30u8];
+            for pair in nib.chunks(2) {
+                p.push(pair[0] << 4 | pair[1]);
+            }
+            p.extend([12, 9]);
+            out.push(Item {
+                desc: format!("Private DICT BlueScale as a real number with {digits} digits, form {form}"),
+                font: build(&p),
+            });
         }
     }
     Some((Kind::Cff, out))
@@ -691,6 +896,8 @@ pub fn items(spec: &Value) -> Option<(Kind, Vec<Item>)> {
     match spec["family"].as_str()? {
         "cffstems" => items_cffstems(spec),
         "cffmisc" => items_cffmisc(spec),
+        "cff2blend" => items_cff2blend(spec),
+        "cffdict" => items_cffdict(spec),
         "tt" => items_tt(spec),
         "glyf" => items_glyf(spec),
         _ => None,
@@ -707,7 +914,18 @@ pub fn describe(spec: &Value) -> String {
         .unwrap_or_default()
 }
 
-fn exercise_cff(acc: &mut Acc, font_bytes: &[u8]) {
+fn exercise_cff(acc: &mut Acc, font_bytes: &[u8], two_locations: bool) {
+    let locs: Vec<Vec<NormalizedCoord>> = if two_locations {
+        vec![vec![], vec![NormalizedCoord::from_f32(0.5)]]
+    } else {
+        vec![vec![]]
+    };
+    for loc in &locs {
+        exercise_cff_at(acc, font_bytes, loc);
+    }
+}
+
+fn exercise_cff_at(acc: &mut Acc, font_bytes: &[u8], loc: &[NormalizedCoord]) {
     let Some(Ok(font)) = acc.call(ST_CFF, || FontRef::new(font_bytes)) else {
         acc.count("font_rejected");
         return;
@@ -721,7 +939,7 @@ fn exercise_cff(acc: &mut Acc, font_bytes: &[u8]) {
     let mut any_ok = false;
     let r = acc.call(ST_CFF, || {
         let mut pen = HashPen::default();
-        let r = g.draw(DrawSettings::unhinted(Size::unscaled(), LocationRef::default()), &mut pen);
+        let r = g.draw(DrawSettings::unhinted(Size::unscaled(), LocationRef::new(loc)), &mut pen);
         (r.map(|_| ()), pen)
     });
     let mut obs = |acc: &mut Acc, h: &mut Fnv, r: Option<(Result<(), skrifa::outline::DrawError>, HashPen)>| {
@@ -746,7 +964,7 @@ fn exercise_cff(acc: &mut Acc, font_bytes: &[u8]) {
             HintingInstance::new(
                 &oc,
                 Size::new(ppem),
-                LocationRef::default(),
+                LocationRef::new(loc),
                 HintingOptions {
                     engine: Engine::Interpreter,
                     target: Target::default(),
@@ -785,7 +1003,8 @@ pub fn drive(spec: &Value) -> CaseOut {
         acc.sub_override = Some(idx);
         acc.evals += 1;
         match kind {
-            Kind::Cff => exercise_cff(&mut acc, &item.font),
+            Kind::Cff => exercise_cff(&mut acc, &item.font, false),
+            Kind::CffVar => exercise_cff(&mut acc, &item.font, true),
             Kind::Tt => ttprog::exercise(&mut acc, &item.font),
             Kind::Glyf => {
                 // the whole skrifa configuration driver (plan "min") on the synthesised font
@@ -822,7 +1041,9 @@ pub fn gen_cases() -> Vec<Value> {
             }
         }
         out.push(json!({"driver": "capfam", "family": "cffmisc", "format": format}));
+        out.push(json!({"driver": "capfam", "family": "cffdict", "format": format}));
     }
+    out.push(json!({"driver": "capfam", "family": "cff2blend"}));
     for g in TT_GROUPS {
         out.push(json!({"driver": "capfam", "family": "tt", "group": g}));
     }
@@ -836,6 +1057,10 @@ pub fn bounds() -> Value {
             "pairs_n": "0..=110 and 200 (ordered); 90..=100 (overlapping, unsorted)", "ghost_hints": "0..=3, widths -20/-21",
             "placements": PLACEMENTS, "hinted_ppem": [13.5, 1000.0], "capacities": "hint map 96 edges, 96 stem hints, 12 mask bytes, 48 operands per stem operator"},
         "cffmisc": {"operand_counts": "stack limit (48 cff / 513 cff2) -2..=+2 before every operator", "subr_chain_depths": "8..=12 local/global/alternating (limit 10)", "seac_endchar": "bchar, achar in {0,1,65,255}, with and without width"},
+        "cff2blend": {"region_counts_of_the_large_store": BLEND_REGION_COUNTS, "capacity": "16 precomputed blend scalars", "charstrings": BLEND_CHARSTRINGS,
+            "private_dict": BLEND_PRIVATE, "deltas_per_value": "regions -1 / = / +1", "stores": "ivd0 = N regions, ivd1 = 1 region, ivd2 = N regions", "locations": ["default", "wght +0.5"]},
+        "cffdict": {"arrays": DICT_ARRAYS.iter().map(|a| format!("{} (capacity {})", a.0, a.2)).collect::<Vec<_>>(), "operand_counts": "0,1,2, capacity-2..=+2, 40, 47, 48, 49",
+            "real_numbers": "BlueScale with 1,29..34,64,200 digits in 3 forms (32-byte parse buffer)", "formats": ["cff", "cff2"]},
         "tt": {"groups": TT_GROUPS, "note": "each capacity at -1 / = / +1 plus 0, negative and huge values; fpgm, prep and glyph programs"},
         "glyf": "points 7/8/9/16 vs maxPoints 8; contours 1/2/3 vs maxContours 2; k=1..3 components vs maxCompositePoints 4k±1 and maxComponentElements k±1; nesting d=1..3 vs maxComponentDepth d±1; all-zero maxp",
     })
